@@ -39,7 +39,8 @@ def judgeRun (init : List (String × α)) (steps : List (Option String × List (
 
 /-- "A module's description is a function of its own class chain and its own configuration only":
 two programs that define the same classes (same declarations, same bases) in different orders,
-possibly among other classes, show the same dump for every owner they have in common. -/
+possibly among other classes, load the same configuration and create the same modules from it in different
+orders, show the same dump for every owner they have in common (classes, instances, configuration sections). -/
 def OrderIndependent (a b : List (String × α)) : Prop :=
   ∀ o da db, (o, da) ∈ a → (o, db) ∈ b → da = db
 
